@@ -153,9 +153,15 @@ def _worker_loop(
                             )
                             if dataset_iter is not None:
                                 fetcher.dataset_iter = dataset_iter
-                        # We always force fetcher to request at least one batch even if
-                        # we know it will lead to immediate stop iteration
-                        fetcher.ended = False
+                        # If the dataset or its iterator restored a position, also restore whether the
+                        # iterator was already exhausted: the first fetch of an ended fetcher raises
+                        # StopIteration straight away (without touching the restored iterator again),
+                        # which is reported to the main process as usual. Without any restorable state
+                        # the main process fast-forwards this worker from the start of its shard.
+                        fetcher.ended = (
+                            worker_state[_DATASET_STATE] is not None
+                            or worker_state[_FETCHER_STATE][_DATASET_ITER_STATE] is not None
+                        ) and worker_state[_FETCHER_STATE][_FETCHER_ENDED]
                 iteration_end = False
                 initial_state = incremental_worker_state.generate_delta(
                     _make_state_dict(worker_id, dataset_kind, fetcher, dataset)
